@@ -21,6 +21,8 @@ type VDB struct {
 	// OpHook, when set, is called for every store operation (op = "set"/"commit"/"get"/"keys"); returning an error fails it.
 	// Used by the sequential (E2) harnesses to inject "the k-th store operation fails".
 	OpHook func(op, key string) error
+	// Describe, when set, renders the durable content after a commit; it is appended to the commit event ("keys|describe").
+	Describe func(values map[string][]byte) string
 
 	mu     sync.Mutex
 	values map[string][]byte
@@ -248,7 +250,11 @@ func (d *VDB) snapshotLocked(kind, keys string) {
 	}
 	d.snaps = append(d.snaps, Snapshot{Seq: seq, Values: cp})
 	if d.W != nil {
-		d.W.Log("db", kind, len(d.snaps)-1, keys)
+		arg := keys
+		if d.Describe != nil {
+			arg += "|" + d.Describe(cp)
+		}
+		d.W.Log("db", kind, len(d.snaps)-1, arg)
 	}
 }
 
